@@ -136,13 +136,16 @@ value is ignored).  `k` = number of dimensions still to search. -/
 
 def setDim (v : List α) (i : Nat) (x : α) : List α := v.set i x
 
+/-- The closure body: `if y > fVal { solution = x; fVal = y }` (`none` = the initial `-Inf`). -/
+def trackStep (g : α → List α × α) (acc : List α × Option α) (v : α) : List α × Option α :=
+  let xy := g v
+  match acc.2 with
+  | none => (xy.1, some xy.2)
+  | some fv => if fv < xy.2 then (xy.1, some xy.2) else acc
+
 /-- The closure's running best over the evaluation order. -/
 def trackBest (g : α → List α × α) (init : List α) (vs : List α) : List α × Option α :=
-  vs.foldl (fun (acc : List α × Option α) v =>
-    let xy := g v
-    match acc.2 with
-    | none => (xy.1, some xy.2)
-    | some fv => if fv < xy.2 then (xy.1, some xy.2) else acc) (init, none)
+  vs.foldl (trackStep g) (init, none)
 
 def rlsMax (stops recs : Nat) (f : List α → α) (mn mx : List α) : Nat → List α → Nat → List α × Option α
   | 0, pre, _ => (pre, some (f pre))
@@ -154,6 +157,19 @@ def rlsMax (stops recs : Nat) (f : List α → α) (mn mx : List α) : Nat → L
     let a := mn.getD d ((0 : Nat) : α)
     let b := mx.getD d ((0 : Nat) : α)
     trackBest g mid (lineTrace stops recs (fun v => (g v).2) a b)
+
+/-- Every point the N-dimensional objective is evaluated at by `rlsMax` (ghost definition used in
+the statement of the theorem; same recursion). -/
+def rlsLeaves (stops recs : Nat) (f : List α → α) (mn mx : List α) : Nat → List α → Nat → List (List α)
+  | 0, pre, _ => [pre]
+  | k + 1, pre, d =>
+    let g : α → List α × α := fun v =>
+      let r := rlsMax stops recs f mn mx k (setDim pre d v) (d + 1)
+      (r.1, r.2.getD ((0 : Nat) : α))
+    let a := mn.getD d ((0 : Nat) : α)
+    let b := mx.getD d ((0 : Nat) : α)
+    (lineTrace stops recs (fun v => (g v).2) a b).flatMap fun v =>
+      rlsLeaves stops recs f mn mx k (setDim pre d v) (d + 1)
 
 end Concrete
 
